@@ -158,6 +158,7 @@ pub struct Src {
     int_run: usize,
     int_pending_done: bool,
     storm_left: Option<usize>,
+    pauses_given: usize,
     faults: Vec<Fault>,
     per_op_budget: usize,
     pub log: Rc<RefCell<SrcLog>>,
@@ -191,6 +192,7 @@ impl Src {
                 int_run: 0,
                 int_pending_done: false,
                 storm_left: None,
+                pauses_given: 0,
                 faults,
                 per_op_budget,
                 log: log.clone(),
@@ -249,6 +251,13 @@ impl Read for Src {
             log.injected.push((n_call, false, e.kind(), e.to_string()));
             return Err(e);
         }
+        if let Some((at, k)) = EOF_PAUSE.with(|e| e.get()) {
+            if log.pos == at && self.pauses_given < k && !buf.is_empty() {
+                self.pauses_given += 1;
+                log.eof_reports += 1;
+                return Ok(0);
+            }
+        }
         let left = self.data.len() - log.pos;
         if left == 0 || buf.is_empty() {
             if left == 0 {
@@ -276,6 +285,9 @@ impl Read for Src {
 }
 
 thread_local! {
+    /// a file that is still being written: at this offset the sources of this thread answer `Ok(0)`
+    /// this many times before they deliver the rest
+    pub static EOF_PAUSE: std::cell::Cell<Option<(usize, usize)>> = std::cell::Cell::new(None);
     /// sources of this thread accept only `SeekFrom::Start` (a range-request reader, an index-based
     /// archive): legal, and what the readers need today
     pub static ABSOLUTE_SEEKS_ONLY: std::cell::Cell<bool> = std::cell::Cell::new(false);
